@@ -230,6 +230,54 @@ theorem merge_succeeds_marks_covered (S : Schema) (s1 s2 m : Step) (d d1 : Node)
       · simp at hm
   exact ⟨hm', hm' ▸ h1⟩
 
+/-! Non-vacuity of `merge_succeeds_marks_covered`: `doc(p("abc"))`, add `em` on 1 … 4, then on 2 … 3: the
+    merged step is the first one. -/
+section ExampleCovered
+private def tinyM : Schema :=
+  { nodes := #[
+      { name := "doc", isText := false, isInline := false, isLeaf := false, isAtom := false,
+        inlineContent := false, isolating := false, defining := false, code := false,
+        dfa := #[⟨true, [(1, 0)]⟩], markSet := some [], attrs := [] },
+      { name := "para", isText := false, isInline := false, isLeaf := false, isAtom := false,
+        inlineContent := true, isolating := false, defining := false, code := false,
+        dfa := #[⟨true, [(2, 0)]⟩], markSet := none, attrs := [] },
+      { name := "text", isText := true, isInline := true, isLeaf := true, isAtom := true,
+        inlineContent := false, isolating := false, defining := false, code := false,
+        dfa := #[⟨true, []⟩], markSet := some [], attrs := [] }],
+    marks := #[⟨"em", [0], true, []⟩], top := 0, textTy := 2 }
+
+private theorem tinyM_loop : TextLoop tinyM := by
+  intro t q q1 h
+  match t, q with
+  | 0, 0 => simp [Schema.dfa, Schema.nodeType, tinyM, Dfa.matchType, Dfa.edgesOf] at h
+  | 1, 0 =>
+    have : q1 = 0 := by
+      simp [Schema.dfa, Schema.nodeType, tinyM, Dfa.matchType, Dfa.edgesOf] at h; omega
+    subst this; exact h
+  | 2, 0 => simp [Schema.dfa, Schema.nodeType, tinyM, Dfa.matchType, Dfa.edgesOf] at h
+  | 0, q + 1 => simp [Schema.dfa, Schema.nodeType, tinyM, Dfa.matchType, Dfa.edgesOf] at h
+  | 1, q + 1 => simp [Schema.dfa, Schema.nodeType, tinyM, Dfa.matchType, Dfa.edgesOf] at h
+  | 2, q + 1 => simp [Schema.dfa, Schema.nodeType, tinyM, Dfa.matchType, Dfa.edgesOf] at h
+  | t + 3, q =>
+    have : (tinyM.dfa (t + 3)) = #[] := by
+      simp [Schema.dfa, Schema.nodeType, tinyM]
+      rfl
+    rw [this] at h
+    simp [Dfa.matchType, Dfa.edgesOf] at h
+
+private def mKids : List Node := [.elem 1 [] [] [.text [97, 98, 99] []]]
+
+example : ∃ d1, tinyM.apply (.addMark 1 4 ⟨0, []⟩) (.elem 0 [] [] mKids) = .ok d1 ∧
+    (Step.addMark 1 4 ⟨0, []⟩).merge (.addMark 2 3 ⟨0, []⟩) = some (.addMark 1 4 ⟨0, []⟩) := by
+  obtain ⟨d1, h1⟩ := PM.addMark_applies tinyM tinyM_loop 0 [] [] mKids 1 4 ⟨0, []⟩
+    (by simp [mKids, Schema.checkNode, Schema.checkKids]; decide)
+    (by simp [mKids, fnorm, fnormKids, Node.norm, chainOk])
+    (by omega) (by simp [mKids]) (by simp [mKids, alignedAt])
+    (by simp [mKids, alignedAt])
+  have := merge_succeeds_marks_covered tinyM _ _ _ _ d1 1 4 2 3 ⟨0, []⟩ (.inl ⟨rfl, rfl⟩) (by omega) h1 rfl
+  exact ⟨d1, this.1 ▸ this.2, rfl⟩
+end ExampleCovered
+
 /-! ## The merged step applies — replace steps, flat case (helper lemmas: Proofs/FlatReplace.lean)
 
 General statement:
